@@ -64,7 +64,7 @@ type TaintState struct {
 	rdefs   map[string]func(ssa.Instruction) []ssa.Value
 }
 
-func (s *TaintState) Reachable() []*ssa.Function { return s.order }
+func (s *TaintState) Reachable() []*ssa.Function       { return s.order }
 func (s *TaintState) IsReachable(f *ssa.Function) bool { return s.reach[f] }
 
 func (s *TaintState) set(v ssa.Value, t Taint) {
@@ -484,12 +484,12 @@ type tupleKey struct {
 	idx int
 }
 
-func (tupleKey) Name() string                   { return "" }
-func (tupleKey) String() string                 { return "" }
-func (tupleKey) Type() types.Type               { return nil }
-func (tupleKey) Parent() *ssa.Function          { return nil }
-func (tupleKey) Referrers() *[]ssa.Instruction  { return nil }
-func (tupleKey) Pos() token.Pos                 { return token.NoPos }
+func (tupleKey) Name() string                  { return "" }
+func (tupleKey) String() string                { return "" }
+func (tupleKey) Type() types.Type              { return nil }
+func (tupleKey) Parent() *ssa.Function         { return nil }
+func (tupleKey) Referrers() *[]ssa.Instruction { return nil }
+func (tupleKey) Pos() token.Pos                { return token.NoPos }
 
 func (s *TaintState) setResult(call ssa.CallInstruction, idx int, t Taint) {
 	c, ok := call.(*ssa.Call)
